@@ -123,6 +123,34 @@ def install(it):
         return uf
     reg("delay_response", delay_response)
 
+    def pick(it_, ctx, name, arr):
+        """an arbitrary position of an array; for a masked selection x[mask]: an arbitrary selected position (shared by
+        every selection made with the same mask)"""
+        if isinstance(arr, MaskedSel):
+            i = ctx.fresh(name, I)
+            ctx.assume(z3.And(i >= 0, i < lift(arr.arr.n), as_bool(arr.mask.elem(i))))
+            ctx.inputs[str(i)] = i
+            return i
+        return fresh_index(it_, ctx, name, it_.call(it_.builtins["len"], [arr], {}, ctx))
+    reg("pick", pick)
+
+    def at(it_, ctx, arr, k):
+        if isinstance(arr, MaskedSel):
+            return arr.arr.elem(k)
+        return it_.getitem(arr, k, ctx)
+    reg("at", at)
+
+    def sigma(it_, ctx, fn, n):
+        """fn(0) + ... + fn(n-1) for a symbolic n (uninterpreted summation: congruence only)"""
+        from . import builtins_
+        if isinstance(n, int):
+            acc = 0
+            for k in range(n):
+                acc = it_.binop("+", acc, it_.call(fn, [k], {}, ctx), ctx)
+            return acc
+        return builtins_.sigma_term(lambda k: it_.call(fn, [k], {}, ctx), n, ctx)
+    reg("sigma", sigma)
+
     def ufunc(it_, ctx, name, vectorised=True, result="real"):
         return UFunc(name, vectorised, result)
     reg("ufunc", ufunc)
@@ -526,6 +554,19 @@ def call_ufunc(it, ctx, uf, args, kwargs):
         return hook(it, ctx, uf, args)
     if any(isinstance(a, absarr.AbsArr) for a in args):
         return absarr.apply_ufunc(it, ctx, uf, args)
+    if any(isinstance(a, MaskedSel) for a in args):
+        if not uf.vectorised:
+            raise_("TypeError", "callback %s does not accept arrays" % uf.name)
+        ms = [a for a in args if isinstance(a, MaskedSel)]
+        if len(ms) != 1:
+            raise Unsupported("uninterpreted callable on several masked selections")
+        k = args.index(ms[0])
+
+        def one_m(x):
+            aa = list(args)
+            aa[k] = x
+            return call_ufunc(it, ctx, uf, aa, {})
+        return MaskedSel(arrays.map_arr(ms[0].arr, one_m, "complex" if uf.result == "complex" else None), ms[0].mask)
     if any(arrays.is_arr(a) for a in args):
         if not uf.vectorised:
             raise_("TypeError", "callback %s does not accept arrays" % uf.name)
